@@ -19,6 +19,15 @@ def voting_tree(spec):
     return spec['tree']
 
 
+def factor_at(cfg, parent):
+    """bootstrap factor used at a parent node (None = root): per-level lookup if configured"""
+    lk = cfg.get('bootstrap_factor_lookup')
+    if lk:
+        d = {k: v for k, v in lk}
+        return float(d['None' if parent is None else parent[0]])
+    return float(cfg['bootstrap_factor'])
+
+
 def model_marker_genes(spec, vtree=None):
     """C08 reference: genes usable at each parent of the voting tree.
     returns dict key -> set of genes (single-child parents -> empty set)"""
